@@ -84,6 +84,17 @@ def check(ctx):
             and any(V.dominated_by_edge([s], t, "T") for t in rtests)
         ctx.check(ok, "T1-more", s.ast, src(s.ast), "`more` may only be set to True under "
                   "status in (RUNNING, STARTED)")
+    # every tasker that stays scheduled this tick (re-queued on `ready`, whether it ran or was not yet due) must have its
+    # status looked at: a started tasker that is merely not due keeps the skedder alive
+    requeues = [n for n, c in V.calls(("ready.append", "self.ready.append")) if n.id in body_ids]
+    V.need(requeues, "ready.append(...) in the tick body")
+    for rq in requeues:
+        nxt = [b for b, _ in cfg.succ[rq.id]]
+        r = cfg.reachable(nxt, removed_nodes=[t.id for t in rtests]) if nxt else set()
+        ctx.check(hdr.id not in r, "T1-more", rq.ast, "re-queued tasker's status feeds `more`: %s ... if status in (RUNNING, STARTED)" % src(rq.ast)[:60],
+                  "a tasker that remains scheduled (e.g. started but not yet due this tick) reaches the end of the iteration "
+                  "without the RUNNING/STARTED test: the skedder can stop ('No running or started taskers') while that tasker "
+                  "is still started, aborting it mid-mission")
     aug = [n for n in cfg.nodes if isinstance(n.ast, ast.AugAssign) and dotted(n.ast.target) == "self.stamp"
            and n.copy == 0]
     A = V.one(aug, "self.stamp += self.period")
@@ -262,14 +273,22 @@ def check(ctx):
 
 
 def _reverse_then_loop(ctx, fn, arg, meth):
+    """bottom-up iteration of a top-down list: `arg.reverse()` once before `for frame in arg`, or
+    `for frame in reversed(arg)` / `arg[::-1]` with no in-place reversal at all.  Returns "inplace" or "copy"."""
     V = FuncView(ctx, fn)
-    rev = V.need(V.call_nodes(arg + ".reverse"), "%s.reverse() in %s" % (arg, fn.name))
-    loops = [n for n in V.cfg.nodes if n.kind == "for" and dotted(n.ast.iter) == arg]
-    V.need(loops, "for frame in %s" % arg)
+    rev = V.call_nodes(arg + ".reverse")
     calls = V.need(V.call_nodes("frame." + meth), "frame.%s()" % meth)
-    ctx.check(V.dominated(loops, rev) and not (set(V.ids(rev)) & V.reach(loops[0])) and len(rev) == 1,
+    loops = [n for n in V.cfg.nodes if n.kind == "for" and dotted(n.ast.iter) == arg]
+    rloops = [n for n in V.cfg.nodes if n.kind == "for" and src(n.ast.iter).replace(" ", "") in ("reversed(%s)" % arg, "%s[::-1]" % arg)]
+    if rloops and not loops:
+        ctx.check(not rev, "T3-exit", fn, "%s: iterates reversed(%s) (no in-place reversal)" % (fn.name, arg),
+                  "frames must be %sed bottom-up exactly once: reversing the list in place as well would undo it" % meth)
+        return "copy"
+    V.need(loops, "for frame in %s" % arg)
+    ctx.check(bool(rev) and V.dominated(loops, rev) and not (set(V.ids(rev)) & V.reach(loops[0])) and len(rev) == 1,
               "T3-exit", fn, "%s: %s.reverse() exactly once before iterating" % (fn.name, arg),
               "frames must be %sed bottom-up: the top-down list is reversed once before the loop" % meth)
+    return "inplace"
 
 
 def _in_finally(node, fn):
